@@ -63,7 +63,15 @@ pub fn common_faultfree(acc: &mut Acc, case: u64, sc: &Scenario, out: &Outcome) 
         ok = false;
     }
     match &out.connect {
-        Some(Ok(_)) => {}
+        Some(Ok(v)) => {
+            // the version the greeting announced, verbatim (C18; every session checks it because the simulated servers
+            // announce versions of many shapes)
+            let g = &sc.world.greeting;
+            if g.starts_with(b"OK MPD ") && g.ends_with(b"\n") && v.as_bytes() != &g[7..g.len() - 1] {
+                acc.violation(case, None, format!("protocol_version() is {:?} but the greeting announced {:?}", v, String::from_utf8_lossy(&g[7..g.len() - 1])), detail(sc, out));
+                ok = false;
+            }
+        }
         other => {
             acc.violation(case, None, format!("connect failed in a fault-free session: {:?}", other), detail(sc, out));
             ok = false;
